@@ -1,3 +1,49 @@
 import HapVerif.Model.C04
+import HapVerif.Generated.Facts
+/-!
+# C04 — path precedence in generated maps
+
+Model: `HapVerif.C04.rebuild` (maps.go `rebuildMatchFiles` for filter-less exact/prefix/begin
+entries) and `lookupFiles` (HAProxy `map_str/map_beg/map_dir`, first answering file wins).
+Spec: `best` — an exact rule equal to the path, else the longest declared path among the rules
+that match by their own type.
+-/
 namespace HapVerif.C04
+
+def r (h p : String) (mt : MT) (t : Nat) : Rule := ⟨h.toList, p.toList, mt, t⟩
+
+/-- all requests of a finite list are answered as the property demands -/
+def allOk (rules : List Rule) (fs : List MFile) (reqs : List (String × String)) : Bool :=
+  reqs.all fun (h, p) => (checkReq rules fs h.toList p.toList).isNone
+
+/-! ### Witnesses of the two repaired defects (replayed on the Go code before the repairs) -/
+
+def caseRules : List Rule := [r "h" "/app/sub" .beg 0, r "h" "/App" .pfx 1]
+
+/-- before the case repair `/App/sub/x` was answered by the shorter `/App` with the default order -/
+theorem before_case_fix_violates :
+    checkReq caseRules (rebuildV beforeCaseFix [.exact, .pfx, .beg] (entriesOf caseRules) ["h".toList])
+      "h".toList "/App/sub/x".toList = some "shorter-path-wins" := by decide +kernel
+
+theorem after_case_fix_ok :
+    checkReq caseRules (rebuild [.exact, .pfx, .beg] (entriesOf caseRules) ["h".toList])
+      "h".toList "/App/sub/x".toList = none := by decide +kernel
+
+def upperRules : List Rule :=
+  [r "h" "/z/q" .pfx 0, r "h" "/z" .beg 1, r "h" "/a/x/y" .beg 2, r "h" "/a/x" .pfx 3,
+   r "h" "/a/b" .pfx 4, r "h" "/a" .beg 5, r "h" "/" .pfx 6]
+
+/-- before the `_upper` repair `/a/x/foo` was answered by `/a` instead of `/a/x` -/
+theorem before_upper_fix_violates :
+    checkReq upperRules (rebuildV beforeUpperFix [.exact, .pfx, .beg] (entriesOf upperRules) ["h".toList])
+      "h".toList "/a/x/foo".toList = some "shorter-path-wins" := by decide +kernel
+
+theorem after_upper_fix_ok :
+    checkReq upperRules (rebuild [.exact, .pfx, .beg] (entriesOf upperRules) ["h".toList])
+      "h".toList "/a/x/foo".toList = none := by decide +kernel
+
+/-- regenerated from the Go source: the key separator is `#` (not a path or host character) and the
+default host name cannot collide with a DNS name -/
+theorem facts_c04 : Facts.c04KeySeparator = "#" ∧ Facts.c04DefaultHost = "<default>" := by decide
+
 end HapVerif.C04
